@@ -243,6 +243,10 @@ func main() {
 	}
 	rep.Exhaustive = true
 	defer core.Cleanup()
+	if os.Getenv("C08_DIRECTED") == "clusterid" { // development aid: one stage only (never commit its evidence)
+		clusterIDPersist(rep)
+		rep.Finish()
+	}
 
 	core.Watchdog(150*time.Second, func(label string, since time.Duration) {
 		core.Infra("no progress for %s while %s", since, label)
@@ -353,6 +357,7 @@ func main() {
 	consulStage(rep, args, scripts)
 	streamEndsWithTenure(rep)
 	handoffToBusySubscriber(rep)
+	clusterIDPersist(rep)
 
 	nontriv := 0
 	for _, o := range outs {
